@@ -45,6 +45,11 @@ RULE = (
     "on 2 bands. A case "
     "(member, band) is non-trivial when the band holds energy (reference m0 > 0) and the reference resultant "
     "exceeds 1e-9, so that direction AND spread are compared; distinct cases are counted once (in the (time) layout). "
+    "Family '2d:everyN:*': EVERY uniform grid size N = 8..144 (start cycling over {0,7.5,350,-170} by N % 4) x "
+    "three bases (energy in the first bin, in the last bin, a lobe across the wrap) x rotations {0,1,N/3,N-1} x "
+    "{original, mirror} x 2 bands, same oracle. Families '2d:dtype:*' / '1d:dtype:*': variance density STORED as "
+    "float32 / float16 / int32 / uint16 (whole-number valued, exactly representable): 2d all rotations and mirrors "
+    "of whole-number bases on a 12-bin grid (thorough also 36), 1d the scalar-layout member subset batched. "
     "History family (units 'history:*'): for a 1d object and a 2d object (uniform 12 bins from 7.5; thorough also 8 "
     "from -170 and 36 from 350) x every layout, EVERY sequence of length 1..3 over {mean_direction(default band), "
     "mean_directional_spread(0.1,0.35), peak_direction(0.05,0.2+ulp), peak_directional_spread(default), "
@@ -72,7 +77,8 @@ REQUIRED_CATEGORIES = [
     "rotation_direction_pairs", "rotation_invariant_pairs", "mirror_direction_pairs", "mirror_invariant_pairs",
     "layout_scalar", "layout_time", "layout_time_lat", "layout_flat", "range_checked",
     "history_executed", "history_read_then_mutate", "history_mutation_steps", "history_reads_checked",
-    "history_direction_compared", "grid_relabelled_coordinate", "layout_time_T",
+    "history_direction_compared", "grid_relabelled_coordinate", "layout_time_T", "grid_every_N",
+    "storage_dtype_members",
 ]
 
 F = np.array([0.05, 0.1, 0.2, 0.35])
@@ -81,6 +87,22 @@ LAYOUTS = ("scalar", "time", "time_lat", "flat")
 # "time_T" (2d only): leading dimension time, spectral dimensions stored as (direction, frequency)
 LEAD_NAMES = {"scalar": (), "time": ("time",), "time_lat": ("time", "latitude"), "flat": ("linear_index",),
               "time_T": ("time",)}
+
+
+EVERY_N = tuple(range(8, 145))
+EVERY_N_STARTS = (0.0, 7.5, 350.0, -170.0)        # start of the grid with N bins: EVERY_N_STARTS[N % 4]
+STORAGE_DTYPES = ("float32", "float16", "int32", "uint16")
+DTYPE_GRIDS = {"quick": ["uni12@7.5"], "thorough": ["uni36@350"]}
+
+
+def make_1d_dtype(f, E, a1, b1, a2, b2, dtype):
+    """(time, frequency) FrequencySpectrum whose variance density is stored with the given dtype."""
+    from ocean_science_utilities.wavespectra.spectrum import create_1d_spectrum
+
+    sp, dims = _space(E.shape[:-1])
+    return create_1d_spectrum(np.asarray(f, dtype=float), np.asarray(E, dtype=float).astype(dtype), sp["time"],
+                              sp["latitude"], sp["longitude"], a1=a1, b1=b1, a2=a2, b2=b2,
+                              depth=np.full(E.shape[:-1], np.inf), dims=dims + ("frequency",))
 
 
 class ShapeMismatch(Exception):
@@ -98,7 +120,7 @@ def fit(v, shape, check, what):
     return v.reshape(shape)
 
 
-def make_2d(f, d, E, depth=np.inf, flat=False, transposed=False):
+def make_2d(f, d, E, depth=np.inf, flat=False, transposed=False, dtype=None):
     """as mc.common.make_2d; the spectral dimensions can be stored as (direction, frequency)."""
     from ocean_science_utilities.wavespectra.spectrum import create_2d_spectrum
 
@@ -110,6 +132,8 @@ def make_2d(f, d, E, depth=np.inf, flat=False, transposed=False):
     if transposed:
         E = np.ascontiguousarray(np.swapaxes(E, -1, -2))
         sdims = ("direction", "frequency")
+    if dtype is not None:
+        E = E.astype(dtype)     # storage dtype of the variance density (values are exactly representable)
     s = create_2d_spectrum(np.asarray(f, dtype=float), np.asarray(d, dtype=float), E, sp["time"], sp["latitude"],
                            sp["longitude"], dims=dims + sdims, depth=dep)
     return s.flatten() if flat else s
@@ -272,6 +296,15 @@ def units(tier):
             cost = 6 * n * n * n / 20 if layout != "scalar" else 40 * n
             us.append({"name": f"2d:{g['name']}:{layout}", "kind": "2d", "grid": g["name"], "layout": layout,
                        "cost": int(cost)})
+    for r in range(8):     # every uniform N in 8..144, sharded by N % 8
+        us.append({"name": f"2d:everyN:{r}", "kind": "2d_everyN", "residue": r, "layout": "time", "cost": 1200})
+    for gname in DTYPE_GRIDS["quick"] + (DTYPE_GRIDS["thorough"] if tier == "thorough" else []):
+        for dt in STORAGE_DTYPES:
+            us.append({"name": f"2d:dtype:{dt}:{gname}", "kind": "2d_dtype", "grid": gname, "dtype": dt,
+                       "layout": "time", "cost": 400})
+    for dt in STORAGE_DTYPES:
+        us.append({"name": f"1d:dtype:{dt}", "kind": "1d", "layout": "time", "dtype": dt, "chunk": 0, "nchunk": 1,
+                   "cost": 300})
     # history family (see run_history): named restriction 'history_length3_quick' -- the quick tier runs the
     # length-3 histories in the (time) layout only, the other layouts run every history of length <= 2
     targets = [("1d", None)] + [("2d", gname) for gname in
@@ -474,7 +507,10 @@ def run_1d(unit):
     lb = np.array([p[2] for p in L])
     nl = len(L)
     pats = patterns(tier)
-    if layout == "scalar":
+    dtype = unit.get("dtype")
+    if dtype:
+        rep.base["dtype"] = dtype
+    if layout == "scalar" or dtype:
         pat_by_label = dict(pats)
         alt = next(lab for lab, _ in pats if lab[0] == "alt" and lab[1] != lab[2] and lab[1] > 0 and lab[2] > 0)
         mem = [(("const", i), (1.0, 3.0, 0.0, 1.0)) for i in range(nl)] + [(alt, w) for w in WORDS]
@@ -493,6 +529,9 @@ def run_1d(unit):
     labels = lambda i: [list(mem[i][0]), list(mem[i][2])]  # noqa: E731
 
     def build(sl):
+        if dtype:
+            c.cat("storage_dtype_members", len(E[sl]))
+            return make_1d_dtype(F, E[sl], a1[sl], b1[sl], a2[sl], b2[sl], dtype)
         if layout == "scalar":
             return make_1d(F, E[sl][0], a1[sl][0], b1[sl][0], a2[sl][0], b2[sl][0])
         k = len(E[sl])
@@ -568,19 +607,83 @@ def ref_2d(theta, E):
 INVARIANTS = ("hm0", "tm01", "tm02", "peak_frequency")
 
 
+def bases_every_n(theta):
+    """energy in the first bin, in the last bin, and a lobe across the wrap (different rows per frequency)."""
+    n = len(theta)
+    step = 360.0 / n
+
+    def delta(j, amp=1.0):
+        d = np.zeros(n)
+        d[j % n] = amp
+        return d
+
+    def lobe(centre, power, half=False):
+        if half:
+            return np.array([math.cos(math.radians(t - centre) / 2.0) ** 2 for t in theta])
+        return np.array([max(0.0, math.cos(math.radians(t - centre))) ** power for t in theta])
+
+    return [
+        (("first",), np.stack([delta(0), 0.5 * delta(n - 1), np.zeros(n), 2.0 * delta(1)])),
+        (("last",), np.stack([delta(n - 1), 0.5 * delta(0), np.zeros(n), 2.0 * delta(n // 2)])),
+        (("wraplobe",), np.stack([lobe(theta[0] - 0.3 * step, 2), 0.5 * lobe(theta[n - 1] + 0.2 * step, 8), np.zeros(n),
+                                  2.0 * lobe(theta[0] + 0.4 * step, 2, half=True)])),
+    ]
+
+
+def bases_int(theta):
+    """whole-number valued bases (exactly representable in float16 / float32 / int32 / uint16)."""
+    n = len(theta)
+    step = 360.0 / n
+    out = []
+
+    def delta(j, amp):
+        d = np.zeros(n)
+        d[j % n] = amp
+        return d
+
+    def stair(centre, power, top):
+        return np.round(top * np.array([max(0.0, math.cos(math.radians(t - centre))) ** power for t in theta]))
+
+    for j in range(n):
+        out.append((("imp", j), np.stack([delta(j, 3), delta(j + 1, 1), np.zeros(n), delta(2 * j + 3, 5)])))
+    for j in range(1, n):
+        out.append((("pair", j), np.stack([delta(0, 4) + delta(j, 2), delta(j, 1) + delta(2 * j, 1), np.zeros(n),
+                                           delta(n - j, 6) + delta(1, 1)])))
+    for j in range(n):
+        c0 = theta[j] + 0.3 * step
+        out.append((("stair", j), np.stack([stair(c0, 2, 8), stair(c0 + 90.0 + 0.2 * step, 8, 4), np.zeros(n),
+                                            stair(theta[(2 * j) % n] - 0.4 * step, 2, 9)])))
+    return out
+
+
 def run_2d(unit):
     c = Collector()
     layout = unit["layout"]
     tier = unit["tier"]
+    c.cat("layout_" + layout)
+    if unit["kind"] == "2d_everyN":
+        for n in EVERY_N:
+            if n % 8 != unit["residue"]:
+                continue
+            start = EVERY_N_STARTS[n % 4]
+            g = {"name": f"every{n}@{start:g}", "n": n, "theta": [start + j * 360.0 / n for j in range(n)]}
+            ks = [0] + sorted({1, n // 3, n - 1})
+            grid_2d(c, g, layout, bases_every_n(g["theta"]), ks, BANDS_2D[:2], 3, None, n == 8 + unit["residue"])
+            c.cat("grid_every_N")
+            c.case({"part": "2d", "family": "everyN", "grid": g["name"], "ks": ks})
+        return c.result()
     g = next(x for x in grids2d(tier) if x["name"] == unit["grid"])
     theta = list(g["theta"])
     N = g["n"]
-    step = 360.0 / N
-    order = sorted(range(N), key=lambda j: -theta[j])  # mirror image: coordinate negated and re-sorted
-    theta_m = [-theta[j] for j in order]
-    rep = Reporter(c, {"part": "2d", "grid": g["name"], "layout": layout})
-    c.cat("layout_" + layout)
     c.cat("grid_relabelled_coordinate", int(bool(g.get("relabelled"))))
+    if unit["kind"] == "2d_dtype":
+        bases = bases_int(theta)
+        for _, Eb in bases:
+            assert np.all(Eb == np.round(Eb)) and np.all(Eb.astype(unit["dtype"]).astype(float) == Eb)
+        c.cat("storage_dtype_members", len(bases) * N * 2)
+        grid_2d(c, g, layout, bases, list(range(N)), BANDS_2D, max(1, MAX_CELLS // (N * NF * N)), unit["dtype"], True)
+        c.case({"part": "2d", "family": "dtype", "dtype": unit["dtype"], "grid": g["name"], "bases": len(bases)})
+        return c.result()
     bases = bases2d(theta)
     if layout == "scalar":
         bases = [b for b in bases if b[0] in ((("imp", 1), ("lobe", 0)) if N < 72 else (("lobe", 0),))]
@@ -589,17 +692,35 @@ def run_2d(unit):
     else:
         bands = BANDS_2D
         per = max(1, MAX_CELLS // (N * NF * N))       # bases per chunk (each gives N rotations)
+    grid_2d(c, g, layout, bases, list(range(N)), bands, per, None, True)
+    c.case({"part": "2d", "grid": g["name"], "layout": layout, "bases": len(bases), "bands": len(bands)})
+    return c.result()
+
+
+def grid_2d(c, g, layout, bases, ks, bands, per, dtype, sample):
+    """one grid: every base x every rotation in ks (ks[0] == 0) x {original, mirror image}; definitions and
+    the closed relations."""
+    theta = list(g["theta"])
+    N = g["n"]
+    nk = len(ks)
+    step = 360.0 / N
+    order = sorted(range(N), key=lambda j: -theta[j])  # mirror image: coordinate negated and re-sorted
+    theta_m = [-theta[j] for j in order]
+    key = {"part": "2d", "grid": g["name"], "layout": layout}
+    if dtype:
+        key["dtype"] = dtype
+    rep = Reporter(c, key)
     lead_names = LEAD_NAMES[layout]
 
     for b0 in range(0, len(bases), per):
         chunk = bases[b0:b0 + per]
         nb = len(chunk)
         # members: (base, k) -> E[..., j] = base[..., j-k]
-        Erot = np.stack([np.stack([np.roll(Eb, k, axis=-1) for k in range(N)]) for _, Eb in chunk])  # (nb,N,NF,N)
-        Erot = Erot.reshape(nb * N, NF, N)
+        Erot = np.stack([np.stack([np.roll(Eb, k, axis=-1) for k in ks]) for _, Eb in chunk])  # (nb,nk,NF,N)
+        Erot = Erot.reshape(nb * nk, NF, N)
         Emir = Erot[:, :, order]
-        n = nb * N
-        labels = lambda i, mirror=False: [list(chunk[i // N][0]), int(i % N), bool(mirror)]  # noqa: E731
+        n = nb * nk
+        labels = lambda i, mirror=False: [list(chunk[i // nk][0]), int(ks[i % nk]), bool(mirror)]  # noqa: E731
         results = {}
         for mirror, th, E in ((False, theta, Erot), (True, theta_m, Emir)):
             lab = lambda i, _m=mirror: labels(i, _m)  # noqa: E731
@@ -609,12 +730,12 @@ def run_2d(unit):
                 k = sl.stop - sl.start
                 try:
                     if layout == "scalar":
-                        s = make_2d(F, np.array(th), E[sl][0])
+                        s = make_2d(F, np.array(th), E[sl][0], dtype=dtype)
                     elif layout == "time_T":
-                        s = make_2d(F, np.array(th), np.ascontiguousarray(E[sl]), transposed=True)
+                        s = make_2d(F, np.array(th), np.ascontiguousarray(E[sl]), transposed=True, dtype=dtype)
                     else:
                         s = make_2d(F, np.array(th), reshape_lead(np.ascontiguousarray(E[sl]), layout, (NF, N)),
-                                    flat=(layout == "flat"))
+                                    flat=(layout == "flat"), dtype=dtype)
                     part = {"Df": fit(_vals(s.mean_direction_per_frequency), (k, NF), "shape",
                                       "mean_direction_per_frequency"),
                             "Sf": fit(_vals(s.mean_spread_per_frequency), (k, NF), "shape",
@@ -667,8 +788,8 @@ def run_2d(unit):
         if results is None:
             continue
         # ---- closed relations on the implementation's own outputs ---------------------------------------------
-        kk = np.tile(np.arange(N), nb)
-        base_of = (np.arange(n) // N) * N                # index of the k=0 member of the same base
+        kk = np.tile(np.array(ks), nb)
+        base_of = (np.arange(n) // nk) * nk              # index of the k=0 member of the same base
         for bi, band in enumerate(bands):
             bkey = "default" if band is None else [float(band[0]), float(band[1])]
             ref = results[(False, "ref", bi)]
@@ -751,21 +872,19 @@ def run_2d(unit):
             break
         c.cat("rotation_direction_pairs", int(np.sum(cmpf & (kk > 0)[:, None])))
         c.cat("mirror_direction_pairs", int(np.sum(cmpf)))
-        if b0 == 0:
+        if b0 == 0 and sample:
             c.sample({"part": "2d", "grid": g["name"], "layout": layout, "member": labels(1),
                       "theta": theta, "density_rows": Erot[1].tolist(),
                       "mean_direction": float(results[False][("mean_direction", 0)][1]),
                       "mean_direction_base": float(results[False][("mean_direction", 0)][0]),
                       "mean_direction_mirror": float(results[True][("mean_direction", 0)][1])})
-    c.case({"part": "2d", "grid": g["name"], "layout": layout, "bases": len(bases), "bands": len(bands)})
-    return c.result()
 
 
 def run_unit(unit):
     if unit["kind"] == "history":
         r = run_history(unit)
     else:
-        r = run_1d(unit) if unit["kind"] == "1d" else run_2d(unit)
+        r = run_1d(unit) if unit["kind"] == "1d" else run_2d(unit)   # kinds 2d, 2d_everyN, 2d_dtype
     if unit["layout"] != "time":
         r["distinct_nontrivial"] = 0
     return r
